@@ -4,7 +4,7 @@ From Coq Require Import List NArith ZArith Bool.
 From Delb.Base Require Import PyStr PyStrFacts.
 From Delb.Gen Require Import GenNames GenWrap.
 From Delb.Tree Require Import ATree Merge.
-From Delb.Ws Require Import Reduce Pretty SimplePP WsVariant WsVariantFacts PrettyVariant Wrap WrapSerFacts WrapTextOnly WrapVariant.
+From Delb.Ws Require Import Reduce Pretty SimplePP WsVariant WsVariantFacts PrettyVariant Wrap WrapSerFacts WrapTextOnly WrapVariant WrapTextStep WrapFull.
 Import ListNotations.
 
 (* (A) soundness of the legality criterion, for every serializer: reducing a legal whitespace variant
@@ -49,32 +49,64 @@ Proof. vm_compute. repeat split. discriminate. Qed.
 
    (for every fitting oracle `req`, the real `_required_space` being the instance `real_req T sr`).  It was false of
    the code before b3af6c0 (finding C03-preserved-newline-offset, fixed); the former witnesses are the regression
-   Example below.  PARTIAL - what is proved of it:
-     * C03_wrapped_no_mixed: the full statement, for every oracle, every width >= 1, every indentation of spaces and
-       tabs, both align settings, serialization from the root or from any sub-tree (every path sr and every
-       following context aft - the output of a sub-tree serialization depends on what follows the sub-tree only
-       through these, and the theorem holds for all of them; the precondition is that the serialized sub-tree on
-       its own is reduced), for all trees WITHOUT MIXED CONTENT (decidable class `no_mixed`: below every element
-       that is not under xml:space="preserve" the children are either one text, or non-text nodes optionally
-       separated by single spaces - what reducing a conventionally laid out document gives; anything is allowed
-       under xml:space="preserve").  C03_wrapped_real_no_mixed is its instance for the real _required_space.
-     * C03_wrapped_text_only: the single-text case on its own (also used by C19).
-     * C03_wrapped_lines_variant / C03_wrapped_text_run_partial: for any text run, the lines of the generated
-       _wrap_text written with newline-plus-indentation between them reduce to the text.
-   The node-level machinery (Ws/WrapVariant.v: writer invariant `winv`, `w_node_spec` for all branches of
-   serialize_node incl. _serialize_appendable_node and the verbatim serializers, the induction `wrap_variant_mut`)
-   is general; the class restriction enters in one place only, the case "text with content that has siblings":
-   MISSING LEMMA `w_text_step` - for a text optsp lead ++ k ++ optsp trail (core k) between siblings, from a state
-   satisfying winv, TextWrappingSerializer._serialize_text (incl. the partial-line branch of
-   _serialize_text_over_lines) emits pre ++ k' ++ suf with k' an inner variant of k, pre/suf whitespace that is empty
-   unless legal and non-empty where the normal form has a space - or else leaves the line full (available = 0), in
-   which case the oracle must not let the next element fit (true of the real _required_space).  Indentation strings
-   containing a newline are not covered for width > 0 (the writer strips them at the start of a line). *)
+   Example below.  PARTIAL - what is proved of it (every width >= 1, every indentation of spaces and tabs, both
+   align settings, serialization from the root or from any sub-tree of any document T - the output of a sub-tree
+   serialization depends on what follows the sub-tree in T, the theorems hold for every T; the precondition is
+   that the serialized sub-tree on its own is reduced):
+     * C03_wrapped_first_text (every oracle that lets nothing but a text fit into no space) and its instance for
+       the real _required_space, C03_wrapped_real_first_text: the full statement for all trees of the decidable
+       class `first_text` - below an element that is not under xml:space="preserve", a text with content may only
+       stand FIRST among its siblings (every later text child is a single space; elements, comments, PIs anywhere;
+       anything under xml:space="preserve").  This contains all trees without mixed content (C03_wrapped_no_mixed,
+       for EVERY oracle) and patterns like <li>text <ref/> <note>...</note></li>.
+     * C03_wrapped_if_partial_line: the full statement for ALL trees, given the one remaining lemma, the Prop
+       `over_spec` (Ws/WrapFull.v): _serialize_text_over_lines entered from a partly filled line (writer offset
+       <> 0: the "filling" of the rest of the line, then further lines) satisfies the text-step postcondition
+       `tstep_post` (what is written collapses to the text with a leading/trailing space exactly where one is legal
+       and needed, or leaves the line full).  Everything else of the text step is proved (Ws/WrapTextStep.v:
+       texts that fit the line, _serialize_text_over_lines from the start of a line incl. _consolidate_text_lines
+       and the oracle-dependent extra empty line), as is the node level (Ws/WrapVariant.v, Ws/WrapFull.v: all
+       branches of serialize_node incl. the re-entry after a newline, _serialize_appendable_node, the verbatim
+       serializers, the writer invariant).
+     * The hypothesis on the oracle is necessary: when a line break consumes the trailing space of a text the line
+       is full, and an oracle that lets the next element fit into no space would glue it to the text.
+   Indentation strings containing a newline are not covered for width > 0 (the writer strips them at the start of
+   a line). *)
 
 Example C03_wrapped_regression :
   reduce_model (wrap_seen [SP; SP] false 5%Z c03_witness []) = c03_witness /\
   reduce_model (wrap_seen [SP; SP] false 5%Z c03_witness_comment []) = c03_witness_comment.
 Proof. split; [exact (proj1 (proj2 (proj2 c03_witness_regression)))|exact (proj2 (proj2 (proj2 (proj2 (proj2 c03_witness_regression)))))]. Qed.
+
+(* trees in which a text with content only stands first among its siblings: every admissible oracle ... *)
+Theorem C03_wrapped_first_text : forall ind align width req T, ws_indent ind = true -> no_lf ind = true -> (1 <= width)%Z ->
+  (forall rp u x, get T rp = Some x -> is_text x = false -> (u <= 0)%Z -> req rp u = None) ->
+  forall t sr, get T sr = Some t -> reduced t -> is_text t = false -> first_text t = true ->
+  reduce_model (seen (wrap_chunk ind align width req sr (after_path T sr) t)) = t.
+Proof. exact wrap_first_text_transparent. Qed.
+Print Assumptions C03_wrapped_first_text.
+
+(* ... and the real one: NodeBase.serialize(format_options=FormatOptions(align, ind, width)) of the element at sr of T *)
+Theorem C03_wrapped_real_first_text : forall ind align width T sr t, ws_indent ind = true -> no_lf ind = true -> (1 <= width)%Z ->
+  get T sr = Some t -> reduced t -> is_text t = false -> first_text t = true ->
+  reduce_model (wrap_seen ind align width T sr) = t.
+Proof. exact wrap_real_first_text_transparent. Qed.
+Print Assumptions C03_wrapped_real_first_text.
+
+(* all trees, given the partial-line branch of _serialize_text_over_lines *)
+Theorem C03_wrapped_if_partial_line : forall ind align width req T, ws_indent ind = true -> no_lf ind = true -> (1 <= width)%Z ->
+  (forall rp u x, get T rp = Some x -> is_text x = false -> (u <= 0)%Z -> req rp u = None) ->
+  over_spec ind width req ->
+  forall t sr, get T sr = Some t -> reduced t -> is_text t = false ->
+  reduce_model (seen (wrap_chunk ind align width req sr (after_path T sr) t)) = t.
+Proof. exact wrap_all_transparent_if_over. Qed.
+Print Assumptions C03_wrapped_if_partial_line.
+
+Example C03_first_text_example :
+  let t := Tag [] [112%N] [] [Text [97; 97; 32; 98; 98; 32; 99; 99; 32]%N; Tag [] [105%N] [] [Text [100; 100]%N]; Text [SP];
+                              Comment [99%N]] in
+  reduce_model t = t /\ first_text t = true /\ no_mixed t = false /\ wrap_str [SP; SP] false 6%Z t [] <> render (plain t).
+Proof. vm_compute. repeat split. discriminate. Qed.
 
 (* all trees without mixed content, every oracle, root or sub-tree *)
 Theorem C03_wrapped_no_mixed : forall ind align width req, ws_indent ind = true -> no_lf ind = true -> (1 <= width)%Z ->
